@@ -6,27 +6,27 @@ package text
 
 
 //@ func documentKey
-//@   property C19
+//@   property C19 C05 C08
 //@   pure
 //@   arith bv
 //@   ensures len(result) == 9 && result[0] == 'd' && le64at(result, 1) == id
 
 //@ func (docCacheItem).IdFromKey
-//@   property C19
+//@   property C19 C05 C08
 //@   pure
 //@   arith bv
 //@   ensures result1 == (len(key) == 9 && key[0] == 'd')
 //@   ensures result1 ==> result0 == le64at(key, 1)
 
 //@ func termKey
-//@   property C19
+//@   property C19 C05 C08
 //@   pure
 //@   arith bv
 //@   ensures len(result) == len(term) + 2 && result[0] == 't' && result[len(term)+1] == 's'
 //@   ensures forall(k, 0, len(term), result[1+k] == term[k])
 
 //@ func (*setCacheItem).IdFromKey
-//@   property C19
+//@   property C19 C05 C08
 //@   pure
 //@   arith bv
 //@   ensures result1 == (len(key) >= 2 && key[0] == 't' && key[len(key)-1] == 's')
